@@ -3,9 +3,11 @@ package uasc
 import (
 	"context"
 	"encoding/binary"
+	"time"
 
 	"github.com/gopcua/opcua/ua"
 	"github.com/gopcua/opcua/uacp"
+	"github.com/gopcua/opcua/uapolicy"
 )
 
 // C07 — secure channel chunking round-trips every message under every policy and mode.
@@ -157,4 +159,64 @@ func VerifH_C07_RoundTrip() {
 		vfReach("multi")
 	}
 	vfReach("delivered")
+}
+
+// OPN: an OpenSecureChannel request (asymmetric chunk) produced by a client with key size a
+// for a server with key size b is read by the server's real readChunk; the recovered body
+// must be the encoded request. Key sizes are chosen independently from the policy's range,
+// so sender and receiver may be in different ExtraPaddingSize classes (<= / > 2048 bits).
+func VerifH_C07_OPN() {
+	pi := vfConcrete(vfInt("policy", 0, len(vfSymPolicies)-1))
+	uri := vfSymPolicies[pi]
+	sizes := [][]int{{128, 256}, {128, 256}, {256, 384, 512}, {256, 384, 512}, {256, 384, 512}}[pi]
+	ka := sizes[vfConcrete(vfInt("clientKey", 0, len(sizes)-1))]
+	kb := sizes[vfConcrete(vfInt("serverKey", 0, len(sizes)-1))]
+	keyA, keyB := vfRSAKey("client", ka), vfRSAKey("server", kb)
+	certA, certB := vfCert("client", keyA), vfCert("server", keyB)
+	ack := &uacp.Acknowledge{ReceiveBufSize: 8192, SendBufSize: 8192, MaxChunkCount: 16, MaxMessageSize: 1 << 20}
+
+	// client side
+	ctcp := vfTCP("cli", nil)
+	cconn, _ := uacp.NewConn(ctcp, ack)
+	ccfg := &Config{SecurityPolicyURI: uri, SecurityMode: ua.MessageSecurityModeSignAndEncrypt, Certificate: certA, LocalKey: keyA,
+		RemoteCertificate: certB, Thumbprint: uapolicy.Thumbprint(certB), RequestTimeout: time.Second}
+	cerr := make(chan error, 4)
+	csc, err := NewSecureChannel("opc.tcp://h:4840", cconn, ccfg, cerr)
+	vfAssert(err == nil, "NewSecureChannel rejects a valid configuration")
+	algo, err := uapolicy.Asymmetric(uri, keyA, &keyB.PublicKey)
+	vfAssert(err == nil && algo != nil, "Asymmetric fails for keys inside the policy range")
+	if algo == nil {
+		return
+	}
+	ci := newChannelInstance(csc)
+	ci.algo = algo
+	ci.SetMaximumBodySize(int(cconn.SendBufSize()))
+	nonce := vfBytes("clientNonce", algo.NonceLength())
+	req := &ua.OpenSecureChannelRequest{RequestType: ua.SecurityTokenRequestTypeIssue, SecurityMode: ua.MessageSecurityModeSignAndEncrypt, ClientNonce: nonce, RequestedLifetime: vfU32("lifetime")}
+	_, err = csc.sendAsyncWithTimeout(context.Background(), req, 1, ci, nil, false, time.Second)
+	vfAssert(err == nil, "sending the OpenSecureChannel request fails")
+	if err != nil {
+		return
+	}
+	wire := vfTCPWritten(ctcp)
+	vfAssert(vfTCPWrites(ctcp) == 1 && len(wire) <= 8192, "OPN request is not a single chunk within the chunk size")
+	vfAssert(int(binary.LittleEndian.Uint32(wire[4:8])) == len(wire), "MessageSize differs from the chunk length")
+
+	// server side: as channelBroker.RegisterConn builds it
+	stcp := vfTCP("srv", wire)
+	sconn, _ := uacp.NewConn(stcp, ack)
+	scfg := &Config{SecurityPolicyURI: ua.SecurityPolicyURINone, SecurityMode: ua.MessageSecurityModeNone, Certificate: certB, LocalKey: keyB, Lifetime: 3600000}
+	serr := make(chan error, 4)
+	ssc, err := NewServerSecureChannel("", sconn, scfg, serr, 7, 3, 9)
+	vfAssert(err == nil && ssc != nil, "NewServerSecureChannel fails")
+	chunk, err := ssc.readChunk()
+	vfAssert(err == nil && chunk != nil, "the server rejects a well-formed OpenSecureChannel chunk")
+	if err != nil || chunk == nil {
+		return
+	}
+	want, _ := ua.Encode(req)
+	typeID, _ := ua.Encode(ua.NewFourByteExpandedNodeID(0, 446)) // OpenSecureChannelRequest_Encoding_DefaultBinary
+	vfAssert(string(chunk.Data) == string(typeID)+string(want), "the decrypted OPN body differs from the encoded request")
+	vfAssert(chunk.SequenceHeader != nil && chunk.SequenceHeader.RequestID == 1, "request id changed in transit")
+	vfReach("opn")
 }
